@@ -604,6 +604,29 @@ def r_shrink_decision(F, V):
                 bad = (bb, "growth_left / capacity()")
             if S.has_call("::buckets") or S.has_load("bucket_mask"):
                 seen_buckets = True
+    # every act that ALLOCATES (resize / with_capacity) happens only where fewer buckets are needed than are held:
+    # it is control dependent on the edge `capacity_to_buckets(min_size) < self.buckets()`, so shrink_to never enlarges
+    # the allocation (and never asks for a capacity that overflows)
+    key2 = "raw::RawTable::shrink_to|never-enlarges"
+    allocs = [i for i, t in b.calls() if (callee_path(t) or "").endswith("RawTable::resize") or (callee_path(t) or "").endswith("RawTableInner::with_capacity")
+              or (callee_path(t) or "").endswith("::fallible_with_capacity") or (callee_path(t) or "").endswith("::new_uninitialized")]
+    is_need = lambda S: S.has_call("capacity_to_buckets")
+    is_have = lambda S: (S.has_call("::buckets") or S.has_load("bucket_mask")) and not S.has_call("capacity_to_buckets")
+    unguarded = []
+    for a in allocs:
+        rels = [_relation(b, bb, s, is_need, is_have) for (bb, s) in b.control_deps_trans(a, "all")]
+        if "<" not in rels:
+            unguarded.append((a, [r for r in rels if r]))
+    if not allocs:
+        R.undec("shrink_to: no allocating call (resize / with_capacity) found")
+    elif unguarded:
+        a, rels = unguarded[0]
+        R.violation(key2, b, "shrink_to can allocate a replacement table (%s) on a path that is not guarded by `needed buckets < current buckets` (relations found on the controlling branches: %s): "
+                    "for a request above the current capacity it would ENLARGE the allocation (or panic with a capacity overflow for a huge request) instead of doing nothing"
+                    % ((callee_path(b.term(a)) or "").split("::")[-1], rels or "none"), line=line_of(b, bb=a))
+        R.inst(key2, "allocation not guarded by needed < held", "violation", True, where(b, bb=a))
+    else:
+        R.inst(key2, "all %d allocating calls are control dependent on capacity_to_buckets(min_size) < buckets()" % len(allocs), "ok", True, where(b, bb=allocs[0]))
     key = "raw::RawTable::shrink_to|decision"
     if bad:
         R.violation(key, b, "the decision to shrink depends on %s, which every tombstone reduces: a table saturated with tombstones is never shrunk although few elements are live" % bad[1], line=line_of(b, bb=bad[0]))
